@@ -234,6 +234,14 @@ func (c *rapidContext) watchEvents(events <-chan supvmodel.Event) {
 		}
 		termination := event.Event.ProcessTerminated()
 
+		// A process that is no longer tracked belongs to a generation whose teardown has
+		// completed (it gave up waiting for this very event): the event must not be taken
+		// for a failure of the current generation, nor cancel its flows.
+		if _, tracked := c.shutdownContext.getExitedChannel(*termination.Name); !tracked {
+			log.Warnf("Ignoring termination of untracked process %s: %+v", *termination.Name, termination)
+			continue
+		}
+
 		// If we are not shutting down then we care if an unexpected exit happens.
 		if !c.shutdownContext.isShuttingDown() {
 			runtimeProcessName := fmt.Sprintf("%s-%d", runtimeProcessName, c.runtimeDomainGeneration)
